@@ -213,7 +213,7 @@ def finish(mod, prop, tier, seed, agg, died, wall):
     coverage = {
         "evaluations": agg["evaluations"],
         "distinct_nontrivial": len(agg["nontrivial"]),
-        "rule": mod.RULE,
+        "rule": mod.RULE + " Workload classes added during the build phase (DESIGN.md 10.1: repeated episodes, shared objects, refused calls, copies, other entry points, unusual input types ...) are generated by the same cases and counted by name under coverage.categories; the classes a seeded change once needed are required categories (a run that misses one is INCONCLUSIVE).",
         "samples": samples,
         "systematic_cases": agg["n_sys"],
         "random_cases": agg["n_rand"],
